@@ -26,6 +26,7 @@ extern const op_t ops_jwe[];
 extern const op_t ops_api[];
 extern const op_t ops_cfg[];
 extern const op_t ops_glob[];
+extern const op_t ops_alloc[];
 json_t *hx_cfg_errnames(void);
 void hx_stderr_begin(void);
 char *hx_stderr_end(void);
